@@ -103,7 +103,7 @@ def build_lib(repo=REPO, variant='plain'):
     _gc(variant, name)
     return bdir
 
-def build_exe(src, out_name, repo=REPO, variant='plain', extra_flags=(), extra_srcs=()):
+def build_exe(src, out_name, repo=REPO, variant='plain', extra_flags=(), extra_srcs=(), wrap=True):
     """Compile a harness program against the library build of `variant`."""
     cflags, openssl = VARIANTS[variant]
     bdir = build_lib(repo, variant)
@@ -115,14 +115,14 @@ def build_exe(src, out_name, repo=REPO, variant='plain', extra_flags=(), extra_s
         d = os.path.dirname(os.path.abspath(s))
         for h in sorted(glob.glob(os.path.join(d, '*.h'))) + sorted(glob.glob(os.path.join(d, '*.inc'))):
             hh.update(open(h, 'rb').read())
-    hh.update(' '.join(extra_flags).encode())
+    hh.update((' '.join(extra_flags) + str(wrap)).encode())
     hh.update(open(os.path.abspath(__file__), 'rb').read())
     exe = os.path.join(bdir, out_name + '-' + hh.hexdigest()[:10])
     if os.path.exists(exe):
         return exe
     defs = DEFS + (['-DZCHUNK_OPENSSL'] if openssl else [])
     run([CC, '-o', exe] + srcs + cflags + defs + inc_flags(repo, bdir) + list(extra_flags)
-        + ['-Wl,--wrap=read,--wrap=write,--wrap=lseek,--wrap=lseek64'] + [os.path.join(bdir, 'libzckv.a')] + LIBS + ['-lpthread'])
+        + (['-Wl,--wrap=read,--wrap=write,--wrap=lseek,--wrap=lseek64'] if wrap else []) + [os.path.join(bdir, 'libzckv.a')] + LIBS + ['-lpthread'])
     return exe
 
 def build_tools(repo=REPO, variant='plain'):
